@@ -29,9 +29,9 @@ theorem error_texts_match : incompleteMsg = sIncomplete ∧ tooLongMsg = sTooLon
     call after a parsable boundary prefix (F17a present), the non-streamed reply numbers its calls (F17b
     repaired), a runner error is an OpenAI error event (F17c repaired), a run without a done chunk is
     reported (F17d repaired), api.Client returns the scanner's error (F17e repaired), a tool call delivered by the
-    done message itself ends the OpenAI stream with `stop` (F17f present).  When a fix for F17a is
+    done message itself ends the OpenAI stream with `tool_calls` (F17f repaired, 9e8f7fa39).  When a fix for F17a is
     applied (or a repair regresses) this theorem stops checking and the THEOREMS_TREE / HISTORICAL split in
     vlib/checks/c17.py has to be redone. -/
-theorem tree_variant : treeVariant = ⟨false, true, true, true⟩ ∧ treeClientFixed = true ∧ treeFinishFixed = false := by decide
+theorem tree_variant : treeVariant = ⟨false, true, true, true⟩ ∧ treeClientFixed = true ∧ treeFinishFixed = true := by decide
 
 end OllamaVerif.Tie.C17
